@@ -124,6 +124,21 @@ def run(tier):
         for hname, tmpl, args, places in hosts:
             v, dangling, head, refs = concretise(st["s"], r2, args)
             cases.append((st["s"], hname, tmpl, args, v, dangling, head, refs, places))
+    # the same VALUE on one element after another in one session: whether a value is legal depends on the element it sits on (what
+    # its references reach), so a verdict reached for one element must not carry over to the next
+    n_main = len(cases)
+    byname = {h[0]: h for h in HOSTS}
+    orders = [("below-other-arg", "mrow"), ("mrow", "below-other-intent", "mrow"), ("deep-other-arg", "mfrac", "below-plain"), ("mi", "msup", "below-other-arg", "msup")]
+    carry = [st for st in chosen if st.get("simple")]
+    if tier == "quick":
+        carry = carry[:60]
+    for ci, st in enumerate(carry):
+        r2 = random.Random(C.seed() * 29 + ci)
+        v, dang0, head, refs = concretise(st["s"], r2, byname["mrow"][2])
+        for hname in orders[ci % len(orders)]:
+            _, tmpl, args, places = byname[hname]
+            dangling = 1 if dang0 or any(a not in args for a in refs) else 0
+            cases.append((st["s"], hname, tmpl, args, v, dangling, head, refs, places))
     scripts = []
     for b in range(0, len(cases), 100):
         ops = [{"op": "set_rules_dir", "dir": "$RULES", "setup": True}, {"op": "set_pref", "name": "BrailleCode", "value": "Nemeth", "setup": True}]
@@ -140,6 +155,7 @@ def run(tier):
         rs = r["results"][2:]
         for j in range(0, len(rs), 11):
             case = cases[k]
+            case_index = k
             k += 1
             cls, hname, tmpl, args, v, dangling, head, refs, places = case
             g = rs[j:j + 11]
@@ -165,15 +181,25 @@ def run(tier):
                            "ignoreRes": ign["r"] if ign["r"] in ("ok", "err", "panic") else "err", "errorRes": err["r"] if err["r"] in ("ok", "err", "panic") else "err",
                            "ignoreIsPlain": 1 if ign["r"] == "ok" and ign["v"] == plain_speech else 0,
                            "bothEqual": 1 if (ign["r"], ign["v"]) == (err["r"], err["v"]) else 0, "mentions": mentions, "pure": pure})
-            back.append((case, ign, err, plain_speech))
+            back.append((case, ign, err, plain_speech, case_index))
     rejects, _, _ = C.validate_trace("Trace_Intent", "Trace_Intent.cfg", events, wd, timeout=3000, heap="8g")
     verdict = C.Verdict(PID)
     for idx, reason in rejects:
-        (cls, hname, tmpl, args, v, dangling, head, refs, places), ign, err, plain_speech = back[idx - 1]
+        (cls, hname, tmpl, args, v, dangling, head, refs, places), ign, err, plain_speech, case_index = back[idx - 1]
         xml = tmpl.replace("{I}", f" intent='{attr(v)}'")
+        # the same value on other elements earlier in the session belongs to the replay (carry-over sequences)
+        earlier = []
+        kk = case_index - 1
+        while kk >= n_main and cases[kk][4] == v:
+            earlier.insert(0, cases[kk][2].replace("{I}", f" intent='{attr(v)}'"))
+            kk -= 1
+        pre = []
+        for x in earlier:
+            pre += [{"op": "set_pref", "name": "IntentErrorRecovery", "value": "IgnoreIntent"}, {"op": "set_mathml", "mathml": x}, {"op": "speech"},
+                    {"op": "set_pref", "name": "IntentErrorRecovery", "value": "Error"}, {"op": "set_mathml", "mathml": x}, {"op": "speech"}]
         text = f"{reason}: intent={v!r} on {hname}: IgnoreIntent -> {ign['r']} {str(ign['v'])[:120]!r}; Error -> {err['r']} {str(err['v'])[:160]!r}; without the attribute {plain_speech!r}"
         verdict.reject(f"{reason}|{hname}|{v}", text,
-                       {"script": [{"op": "set_rules_dir", "dir": "$RULES"}, {"op": "set_pref", "name": "IntentErrorRecovery", "value": "IgnoreIntent"}, {"op": "set_mathml", "mathml": xml}, {"op": "speech"},
+                       {"script": [{"op": "set_rules_dir", "dir": "$RULES"}] + pre + [{"op": "set_pref", "name": "IntentErrorRecovery", "value": "IgnoreIntent"}, {"op": "set_mathml", "mathml": xml}, {"op": "speech"},
                                    {"op": "set_pref", "name": "IntentErrorRecovery", "value": "Error"}, {"op": "set_mathml", "mathml": xml}, {"op": "speech"}]},
                        text=json.dumps({"reason": reason, "host": hname, "intent": v, "classes": " ".join(cls), "ignore": str(ign["v"])[:200], "error": str(err["v"])[:300]}, ensure_ascii=False))
     rc = verdict.finish(wd)
